@@ -22,7 +22,7 @@ def twin_spec(r: random.Random, idx: int) -> dict:
             lv["lsc"] = {"kind": r.choice(["DontStop", "MetaepochLimit"]), "n": r.choice([2, 3])}
         levels.append(lv)
     spec = {"name": f"twin{idx}", "seed": r.randrange(1, 10 ** 6), "dim": r.choice([2, 3]),
-            "box": r.choice(["sym", "asym", "unit", "decimal"]), "fn": r.choice(["sphere", "multi", "funnels", "linear"]),
+            "box": r.choice(["sym", "asym", "unit", "decimal"]), "fn": r.choice(["sphere", "multi", "funnels", "linear", "offset"]),
             "levels": levels, "hibernation": r.random() < 0.4,
             "gsc": r.choice([{"kind": "MetaepochLimit", "n": r.choice([3, 4, 5])},
                              {"kind": "SingularEvalLimit", "n": r.choice([60, 150])}]),
@@ -50,11 +50,26 @@ def twin_pairs(seed: int, n: int) -> list[tuple[dict, dict]]:
     return out
 
 
+def hash_sensitive_spec(r: random.Random, i: int) -> dict:
+    """configurations in which several demes are created per round (ids, seeds and iteration orders of sets / dicts
+    then matter): the ones most likely to depend on the interpreter's hash seed"""
+    child = r.choice([{"engine": "CMA", "gens": 2}, {"engine": "CMAw", "gens": 2}, {"engine": "DE", "pop": 5, "gens": 1},
+                      {"engine": "CMA", "gens": 1, "lsc": {"kind": "MetaepochLimit", "n": 2}}])
+    levels = [{"engine": r.choice(["SEA", "DE", "SHADE"]), "pop": 12, "gens": 1}, child]
+    if r.random() < 0.4:
+        levels.append({"engine": r.choice(["CMA", "LOCAL"]), "gens": 1})
+    return {"name": f"hs{i}", "seed": r.randrange(1, 10 ** 6), "dim": 2, "box": "sym", "fn": r.choice(["funnels", "multi"]),
+            "maximize": r.random() < 0.3, "levels": levels, "hibernation": r.random() < 0.3,
+            "gsc": {"kind": "MetaepochLimit", "n": 4},
+            "sprout": {"kind": "composed", "generator": "nbc", "gen": 1.0, "trunc": 1.0,
+                       "deme_filters": [["demelimit", 3]], "tree_filters": [["levellimit", r.choice([4, 6])]]}}
+
+
 def repeat_triples(seed: int, n: int, n_sub: int) -> list[tuple[dict, dict, dict | None]]:
     r = random.Random(seed * 11 + 5)
     out = []
     for i in range(n):
-        a = random_spec(r, 10000 + i)
+        a = hash_sensitive_spec(r, i) if i < n_sub and i % 2 == 0 else random_spec(r, 10000 + i)
         a["name"] = f"rep{i}"
         a.pop("maystall", None)
         a["max_consults"] = min(int(a.get("max_consults", 600)), 600)
